@@ -354,21 +354,42 @@ def layout(chk, repo, d, eq):
             badr.append(f'element {k} (slice {k // (6 * nty_)}, type {(k // 6) % nty_}, y{k % 6 + 1})')
     chk.ob('R03.3', 'reader (re-dimensionalisation): element slice*(6*num_solutions) + type*6 + y is rescaled as y of every slice and every solution type, nothing else is touched', not badr and not extra,
            f'not rescaled like the first type: {badr[:4]}' + (f'; writes outside the buffer: {extra[:4]}' if extra else ''), md.where(fy), method='interpretation on a 3x3 buffer + GF(p^2) PIT')
-    call = [n for n in ast.walk(f) if isinstance(n, ast.Call) and isinstance(n.func, ast.Name) and n.func.id == 'cf_redimensionalize_radial_functions']
-    okc = bool(call) and [ast.unparse(a) for a in call[0].args] == ['solution_ptr', 'radius_planet', 'planet_bulk_density', 'total_slices', 'num_ytypes']
-    chk.ob('R03.3', 'cf_radial_solver re-dimensionalises the whole solution with (planet radius, bulk density, total_slices, num_ytypes)', okc, f'{[ast.unparse(a) for a in call[0].args] if call else None}', ms.where(call[0]) if call else ms.rel(),
-           method='call-site binding')
-    # reader: Python accessors
+    # the driver re-dimensionalises the whole returned solution: observed on the whole-function symbolic execution (values, not names, of the arguments)
+    from . import solver_run as SRun
+    rr = SRun.run_solver(repo, ('solid', 'solid'), ('tidal', 'loading'), True)
+    okc = False; detail = f'{len(rr.redim_calls)} calls'
+    if len(rr.redim_calls) == 1 and rr.solution_obj is not None:
+        bnd = list(rr.redim_calls[0].values())
+        sol_arr = rr.solution_obj.attrs['full_solution_ptr']
+        vals_ok = len(bnd) >= 5 and (bnd[0] is sol_arr or getattr(bnd[0], 'base', None) is sol_arr.base) and isinstance(bnd[1], X.Node) and d.equal(bnd[1], rr.R) \
+            and isinstance(bnd[2], X.Node) and d.equal(bnd[2], rr.sym['rho_bulk']) and bnd[3] == rr.total and bnd[4] == 2
+        okc = bool(vals_ok); detail = 'arguments: ' + ', '.join(X.show(v)[:20] if isinstance(v, X.Node) else repr(v)[:30] for v in bnd[:5])
+    chk.ob('R03.3', 'cf_radial_solver re-dimensionalises the whole returned solution once, with (planet radius, bulk density, number of slices, number of solution types)', okc, detail, ms.where(f),
+           method='recorded call arguments of the whole-function symbolic execution')
+    # reader: Python accessors (structure of the reshape / slice, tolerant to spelling)
     cls = need_class(ms, 'RadialSolverSolution')
     mm = methods(cls)
-    res = ast.unparse(mm['result']) if 'result' in mm else ''
-    gi = ast.unparse(mm['__getitem__']) if '__getitem__' in mm else ''
-    ok = 'reshape((self.num_slices, self.num_ytypes * MAX_NUM_Y)).T' in res and 'MAX_NUM_Y * requested_sol_num:MAX_NUM_Y * (requested_sol_num + 1)' in gi.replace('(requested_sol_num)', 'requested_sol_num')
-    chk.ob('R03.3', 'reader (result / __getitem__): rows type*6 .. type*6+5 of the (num_ytypes*6, num_slices) view belong to solution type `type`', ok, 'reshape/slice expressions differ', ms.where(mm['result']) if 'result' in mm else ms.rel(),
-           method='AST index-expression agreement')
+
+    def mentions(e, *names):
+        txt = ast.unparse(e)
+        return all(n_ in txt for n_ in names)
+    ok_res = False
+    if 'result' in mm:
+        for n_ in ast.walk(mm['result']):
+            if isinstance(n_, ast.Attribute) and n_.attr == 'T' and isinstance(n_.value, ast.Call) and isinstance(n_.value.func, ast.Attribute) and n_.value.func.attr == 'reshape':
+                shp = n_.value.args[0] if n_.value.args else None
+                if isinstance(shp, ast.Tuple) and len(shp.elts) == 2 and mentions(shp.elts[0], 'num_slices') and mentions(shp.elts[1], 'num_ytypes', 'MAX_NUM_Y'):
+                    ok_res = True
+    ok_get = False
+    if '__getitem__' in mm:
+        for n_ in ast.walk(mm['__getitem__']):
+            if isinstance(n_, ast.Slice) and n_.lower is not None and n_.upper is not None and mentions(n_.lower, 'MAX_NUM_Y') and mentions(n_.upper, 'MAX_NUM_Y', '1'):
+                ok_get = True
+    chk.ob('R03.3', 'reader (result / __getitem__): the flat buffer is viewed as (num_slices, num_ytypes*6) transposed, and type t is rows 6t .. 6(t+1)', ok_res and ok_get,
+           f'reshape((num_slices, num_ytypes*MAX_NUM_Y)).T found: {ok_res}; slice MAX_NUM_Y*t : MAX_NUM_Y*(t+1) found: {ok_get}', ms.where(mm['result']) if 'result' in mm else ms.rel(), method='AST structure')
     tot = [n for n in ast.walk(mm['__init__']) if isinstance(n, ast.Assign) and ast.unparse(n.targets[0]) == 'self.total_size'] if '__init__' in mm else []
-    chk.ob('R03.3', 'solution buffer holds MAX_NUM_Y * num_slices * num_ytypes values', bool(tot) and ast.unparse(tot[0].value).replace(' ', '') == 'MAX_NUM_Y*self.num_slices*self.num_ytypes', 'size expression differs',
-           ms.where(tot[0]) if tot else ms.rel(), method='AST')
+    chk.ob('R03.3', 'solution buffer holds MAX_NUM_Y * num_slices * num_ytypes values', bool(tot) and mentions(tot[0].value, 'MAX_NUM_Y', 'num_slices', 'num_ytypes') and all(isinstance(o_, ast.Mult) for o_ in
+           [x.op for x in ast.walk(tot[0].value) if isinstance(x, ast.BinOp)]), 'size expression differs', ms.where(tot[0]) if tot else ms.rel(), method='AST structure')
 
 
 # ------------------------------------------------------------------------------------------------ R03.5 reciprocity (Saito-Molodensky)
